@@ -3,7 +3,7 @@
 A descriptor is JSON-able:
   {'dim': d, 'p': [p_1..p_d], 'n0': [n_1..n_d], 'disparity': k or None (inf), 'truncate': bool,
    'bdspecs': None | list of [axis, side], 'history': [ {level: [[cell], ...]}, ... ]  (explicit)  or
-   'hseed': int, 'steps': int, 'style': 'random'|'corner'|'isolated'|'multilevel'  (generated against the live space),
+   'hseed': int, 'steps': int, 'style': 'random'|'corner'|'isolated'|'multilevel'|'drill'  (generated against the live space),
    'container': 'set'|'list'|'tuple'|'mixed'}
 """
 import numpy as np
@@ -36,6 +36,19 @@ def random_marks(hs, rng, style='random', max_levels=4, frac=0.3):
     elif style == 'isolated':
         l = levels[int(rng.integers(0, len(levels)))]
         marks[l] = [act[l][int(rng.integers(0, len(act[l])))]]
+    elif style == 'drill':
+        # refine one cell (or a small block), then all of its children, then all of theirs: intermediate levels are left with few or no
+        # active functions while coarser and finer levels interact directly
+        if L == 1:
+            c0 = act[0][int(rng.integers(0, len(act[0])))]
+            # a single cell, or a block wide enough (up to p+1 cells per direction) that a coarse function is replaced
+            pm = max(int(kv.p) for kv in hs.knotvectors(0))
+            w = 1 if rng.random() < 0.4 else int(rng.integers(2, pm + 2))
+            marks[0] = [c for c in act[0] if all(0 <= a - b < w for a, b in zip(c, c0))] or [c0]
+        else:
+            l = L - 1
+            if l not in levels: return None
+            marks[l] = list(act[l])
     elif style == 'multilevel':
         for l in levels:
             if rng.random() < 0.7:
@@ -85,7 +98,7 @@ def build(desc, on_step=None):
             if on_step: on_step(hs, m)
     return hs, hist
 
-def random_desc(rng, dims=(1, 2), pmax=3, n0max=4, styles=('random', 'corner', 'isolated', 'multilevel'), max_steps=4, max_levels=4,
+def random_desc(rng, dims=(1, 2), pmax=3, n0max=4, styles=('random', 'corner', 'isolated', 'multilevel', 'drill'), max_steps=4, max_levels=4,
                 bd_choices=('none', 'empty', 'one', 'all')):
     dim = int(rng.choice(dims))
     p = [int(rng.integers(1, pmax + 1)) for _ in range(dim)]
